@@ -31,7 +31,10 @@ Record cst := {
   main_err : bool              (* the plugin's main listener returned an error (its gRPC server stops) *)
 }.
 
-Record cparams := { registers_first : bool }.   (* Accept registers the listener before starting listenForKnocks *)
+Record cparams := {
+  registers_first : bool;   (* Accept registers the listener before starting listenForKnocks *)
+  door_before_ack : bool    (* listenForKnocks opens the door (muxer.AcceptKnock) before it sends the acknowledgement *)
+}.
 
 Definition cinit : cst :=
   {| a_pc := A0; k_pc := KNone; d_pc := D0; knock_inflight := false; slot := false; registered := false;
@@ -63,14 +66,25 @@ Definition cstep (P : cparams) (sd : side) (s : cst) (l : label) : option cst :=
       | KWait => if slot s
                  then Some {| a_pc := a_pc s; k_pc := KKnock; d_pc := d_pc s; knock_inflight := knock_inflight s; slot := false; registered := registered s; knockch := knockch s; ack := ack s; stream_inflight := stream_inflight s; delivered := delivered s; main_err := main_err s |}
                  else None
-      | KKnock =>   (* muxer.AcceptKnock(n) *)
-          match sd with
-          | ServerMux =>   (* knockCh <- n : always succeeds when the channel is empty; never an error *)
-              Some {| a_pc := a_pc s; k_pc := KAck true; d_pc := d_pc s; knock_inflight := knock_inflight s; slot := slot s; registered := registered s; knockch := true; ack := ack s; stream_inflight := stream_inflight s; delivered := delivered s; main_err := main_err s |}
-          | ClientMux =>   (* look the blocked listener up; "no listener for id" when it is not registered yet *)
-              Some {| a_pc := a_pc s; k_pc := KAck (registered s); d_pc := d_pc s; knock_inflight := knock_inflight s; slot := slot s; registered := registered s; knockch := registered s; ack := ack s; stream_inflight := stream_inflight s; delivered := delivered s; main_err := main_err s |}
-          end
-      | KAck ok => Some {| a_pc := a_pc s; k_pc := KDone; d_pc := d_pc s; knock_inflight := knock_inflight s; slot := slot s; registered := registered s; knockch := knockch s; ack := Some ok; stream_inflight := stream_inflight s; delivered := delivered s; main_err := main_err s |}
+      | KKnock =>   (* the first of the two ordered actions of a received knock *)
+          if door_before_ack P then
+            (* muxer.AcceptKnock(n) *)
+            match sd with
+            | ServerMux =>   (* knockCh <- n : always succeeds when the channel is empty; never an error *)
+                Some {| a_pc := a_pc s; k_pc := KAck true; d_pc := d_pc s; knock_inflight := knock_inflight s; slot := slot s; registered := registered s; knockch := true; ack := ack s; stream_inflight := stream_inflight s; delivered := delivered s; main_err := main_err s |}
+            | ClientMux =>   (* look the blocked listener up; "no listener for id" when it is not registered yet *)
+                Some {| a_pc := a_pc s; k_pc := KAck (registered s); d_pc := d_pc s; knock_inflight := knock_inflight s; slot := slot s; registered := registered s; knockch := registered s; ack := ack s; stream_inflight := stream_inflight s; delivered := delivered s; main_err := main_err s |}
+            end
+          else
+            (* the acknowledgement goes out first (it cannot carry AcceptKnock's error) *)
+            Some {| a_pc := a_pc s; k_pc := KAck true; d_pc := d_pc s; knock_inflight := knock_inflight s; slot := slot s; registered := registered s; knockch := knockch s; ack := Some true; stream_inflight := stream_inflight s; delivered := delivered s; main_err := main_err s |}
+      | KAck ok =>  (* the second action *)
+          if door_before_ack P then
+            Some {| a_pc := a_pc s; k_pc := KDone; d_pc := d_pc s; knock_inflight := knock_inflight s; slot := slot s; registered := registered s; knockch := knockch s; ack := Some ok; stream_inflight := stream_inflight s; delivered := delivered s; main_err := main_err s |}
+          else
+            Some {| a_pc := a_pc s; k_pc := KDone; d_pc := d_pc s; knock_inflight := knock_inflight s; slot := slot s; registered := registered s;
+                    knockch := match sd with ServerMux => true | ClientMux => registered s end;
+                    ack := ack s; stream_inflight := stream_inflight s; delivered := delivered s; main_err := main_err s |}
       | _ => None
       end
   | LD =>
